@@ -1218,6 +1218,7 @@ func main() {
 		if rt != u.recv {
 			continue
 		}
+		desugarAddrTaken(fd) // units_errs.go: a local whose address is taken lives in a cell
 		found[fd.Name.Name] = u.translate(fd, pkgs, funcs)
 	}
 	for _, f := range u.funcs {
@@ -1246,6 +1247,7 @@ func main() {
 		order = append(order, n)
 	}
 	names := append([]string(nil), u.funcs...)
+	names = append(names, translateVars(u, file, pkgs, funcs, found)...) // units_errs.go: package-level struct literals
 	sort.Strings(names)
 	for _, n := range names {
 		visit(n)
